@@ -165,6 +165,21 @@ func runC01(r *Run) {
 			r.Sample(m)
 		}
 	})
+	// nested quantifiers with re-used binder names over nested collections (long lists included)
+	nn := 600
+	if r.Tier == "thorough" {
+		nn = 40000
+	}
+	for i := 0; i < nn; i++ {
+		rng = NewRng(mix(r.Seed, strHash("C01nested"), uint64(i)))
+		d, e := genNestedQuant()
+		c := evalCase{expr: e, d: d, tag: "bexpr"}
+		if !c.parse() {
+			r.Count("generator:unparseable")
+			continue
+		}
+		addEval(r, &c, "nested-quantifiers")
+	}
 	// the same logical document in several Go representations must give the same outcome
 	reps := 300
 	if r.Tier == "thorough" {
@@ -198,6 +213,7 @@ type docStruct struct {
 	L []int
 	M map[string]string
 }
+
 // (collections stay unwrapped: a quantifier does not dereference a pointer to its collection - the model says the same -
 // so *[]int is not a representation of a list as far as any/all are concerned)
 type docStructP struct {
@@ -255,7 +271,8 @@ func kindMatrix() []kindSample {
 		{"SliceOfIfaceNilOnly", []interface{}{nil}}, {"Bytes", []byte("a")}, {"String", "a"}, {"PtrString", &s}, {"NamedString", NStr("a")}, {"NamedInt", NInt(1)},
 		{"Struct", S1{A: 1}}, {"PtrStruct", &S1{A: 1}}, {"StructUnexported", S2{}}, {"UnsafePointerLike", uintptr(0)}, {"JsonNumber", json.Number("1")}, {"PtrJsonNumber", func() *json.Number { j := json.Number("1"); return &j }()},
 		{"ArrayOfIface", [2]interface{}{nil, 1}}, {"MapOfIface", map[string]interface{}{"a": nil, "b": 1}}, {"SliceOfSlices", [][]int{{1}, nil}}, {"NaN", math.NaN()},
-		{"MapPtrVal", map[string]*int{"a": nil, "b": pone}}, {"SliceOfStructs", []S1{{A: 1}}}, {"SliceOfMaps", []map[string]int{{"a": 1}, nil}},
+		{"MapPtrVal", map[string]*int{"a": nil, "b": pone}}, {"SliceOfNamedUint8", []Octet{1, 2}}, {"NamedSliceOfNamedUint8", Octets{1}}, {"NamedBytes", NBytes("a")}, {"ArrayOfBytes", [2]byte{97, 98}}, {"PtrBytes", func() *[]byte { b := []byte("a"); return &b }()},
+		{"NamedStrMap", NStrMap{"a": "b"}}, {"SliceOfNamedStr", []NStr{"a"}}, {"SliceOfNamedBool", []NBool{true}}, {"SliceOfJsonNumber", []json.Number{"1"}}, {"MapOfSlices", map[string][]string{"a": {"a"}}}, {"EmptyOctets", []Octet{}}, {"SliceOfStructs", []S1{{A: 1}}}, {"SliceOfMaps", []map[string]int{{"a": 1}, nil}},
 	}
 }
 
@@ -541,4 +558,82 @@ func parenIfNeeded(e string) string {
 		}
 	}
 	return "( " + e + " )"
+}
+
+// genNestedQuant: a document of groups with members and tags (lists of 0..13 elements, maps), and a quantified
+// expression nested 2-3 deep whose inner binders re-use outer names, whose inner collections hang off outer bindings,
+// and whose bodies use the bindings after an inner brace has closed.
+func genNestedQuant() (interface{}, string) {
+	names := []string{"bob", "al", "eve", "x", ""}
+	mkList := func(n int) []interface{} {
+		var l []interface{}
+		for j := 0; j < n; j++ {
+			l = append(l, pick(rng, names))
+		}
+		return l
+	}
+	var groups []interface{}
+	ng := 1 + rng.Intn(3)
+	if rng.Pct(15) {
+		ng = 11 + rng.Intn(3)
+	}
+	for j := 0; j < ng; j++ {
+		nm := rng.Intn(4)
+		if rng.Pct(10) {
+			nm = 11 + rng.Intn(3)
+		}
+		groups = append(groups, map[string]interface{}{"Members": mkList(nm), "Name": pick(rng, names), "N": j, "Sub": map[string]interface{}{"Tags": mkList(rng.Intn(3))}})
+	}
+	d := map[string]interface{}{"Groups": groups, "Tags": mkList(1 + rng.Intn(3)), "g": pick(rng, names), "m": mkList(2), "Items": []int{3, 1, 2}, "ByName": map[string]interface{}{"a": mkList(2), "b": mkList(1)}}
+	q := func() string { return pick(rng, []string{"any", "all"}) }
+	lit := func() string { return pick(rng, []string{"bob", "al", `""`, "x", "zz"}) }
+	outer := pick(rng, []string{"g", "x", "Groups", "m"})
+	inner := pick(rng, []string{outer, outer, "m", "g", "y"})
+	bind2 := func(n string) string {
+		switch rng.Intn(4) {
+		case 0:
+			return n
+		case 1:
+			return "i, " + n
+		case 2:
+			return "_, " + n
+		default:
+			return n + ", " + n + "2"
+		}
+	}
+	ib := bind2(inner)
+	iv := inner
+	if strings.Contains(ib, ", "+inner+"2") {
+		iv = inner + "2"
+	}
+	leaf := func(v string) string {
+		switch rng.Intn(5) {
+		case 0:
+			return v + " == " + lit()
+		case 1:
+			return v + " != " + lit()
+		case 2:
+			return v + " is empty"
+		case 3:
+			return lit() + " in " + v
+		default:
+			return v + " matches `^b`"
+		}
+	}
+	var e string
+	switch rng.Intn(6) {
+	case 0:
+		e = fmt.Sprintf("%s Groups as %s { %s %s.Members as %s { %s } }", q(), outer, q(), outer, ib, leaf(iv))
+	case 1:
+		e = fmt.Sprintf("%s Groups as %s { ( %s %s.Members as %s { %s } ) and %s.Name != zz }", q(), outer, q(), outer, ib, leaf(iv), outer)
+	case 2:
+		e = fmt.Sprintf("%s Groups as %s { %s %s.Members as %s { %s Tags as %s { %s or %s } } }", q(), outer, q(), outer, ib, q(), outer, leaf(outer), leaf(iv))
+	case 3:
+		e = fmt.Sprintf("%s Groups as %s { %s %s.Sub.Tags as %s { %s } or %s.N == 0 }", q(), outer, q(), outer, ib, leaf(iv), outer)
+	case 4:
+		e = fmt.Sprintf("%s ByName as k, %s { %s %s as %s { %s } }", q(), outer, q(), outer, ib, leaf(iv))
+	default:
+		e = fmt.Sprintf("%s Items as Items, v { v == 3 } or %s Groups as %s { %s.Members.10 == bob or ( %s %s.Members as %s { %s } ) }", q(), q(), outer, outer, q(), outer, ib, leaf(iv))
+	}
+	return d, e
 }
